@@ -71,12 +71,32 @@ func Harness_C12_rename_dir() {
 	into := vm.Bool("intoOwnSubtree")
 	t := "/" + persisters.VerifComponent("T", 2, "abA_.")
 	if into {
-		t = s.d + "/" + persisters.VerifComponent("T", 1, "ab_")
+		// a destination one or two levels inside the directory; component names may start with dots
+		sub := ""
+		if vm.Bool("twoLevelsDown") {
+			s.v.Env.AddEntry(s.d+"/q", tar.TypeDir, 0, false, "")
+			sub = "/q"
+		}
+		t = s.d + sub + "/" + persisters.VerifComponent("T", 3, "ab_.")
 		vm.Assume(t != s.child)
 	}
 	vm.Assume(t != s.d && t != s.sib)
 	before := s.liveNames()
-	err := s.v.FS.Rename(s.d, t)
+	// equivalent spellings of the two paths
+	src, dst := s.d, t
+	switch vm.Choice("srcSpelling", 3) {
+	case 1:
+		src = src[1:]
+	case 2:
+		src = "." + src
+	}
+	switch vm.Choice("dstSpelling", 3) {
+	case 1:
+		dst = dst[1:]
+	case 2:
+		dst = "." + dst
+	}
+	err := s.v.FS.Rename(src, dst)
 	if into {
 		vm.Known("C12-rename-into-own-subtree", true)
 		vm.Assert("C12.rename_into_own_subtree_refused", err != nil)
